@@ -582,13 +582,38 @@ QUICK_CONFIGS = [["vmap", "vmap", True], ["lmap", "smap", False], ["smap", "vmap
 ALL_CONFIGS = [[a, b, j] for a in MAPS for b in MAPS for j in (True, False) if not (b == "lmap" and j)]
 
 
+# variants: [linear_minimizer_jit, nonlinear_minimizer_jit, residual_map, jit]; the FIRST is the reference
+# (everything eager: cg / _newton_cg, Python-loop map)
+EAGER = [False, False, "lmap", True]
+STRAT_ALL = [EAGER, [True, True, "lmap", True], [True, True, "vmap", True], [True, False, "smap", True],
+             [False, False, "lmap", False], [True, False, "lmap", True], [False, True, "vmap", True]]
+# relative tolerance per form: tight solver options -> round-off of the solver (measured 1e-13 .. 1e-15 on
+# the clean tree); no option given -> both flavours use the default criterion: solver accuracy
+STRAT_TOL = {"lin:absdelta": 1e-9, "lin:resnorm": 1e-9, "lin:both": 1e-9, "lin:neither": 1e-3,
+             "nl:xtol": 1e-9, "nl:absdelta": 1e-9, "nl:both": 1e-9, "nl:neither": 1e-6}
+
+
+def strategy_entries(ctx):
+    if not ctx.quick:
+        return ([["lin", f, STRAT_ALL] for f in ("absdelta", "resnorm", "both", "neither")]
+                + [["nl", f, STRAT_ALL] for f in ("xtol", "absdelta", "both", "neither")])
+    r = ctx.seed % 3
+    rot = [[True, True, "lmap", True], [True, True, "vmap", True], [True, False, "smap", True]]
+    return [["lin", "absdelta", [EAGER, rot[r], [False, False, "lmap", False]]],
+            ["lin", "resnorm", [EAGER, rot[(r + 1) % 3]]],
+            ["lin", "both", [EAGER, rot[(r + 2) % 3]]],
+            ["lin", "neither", [EAGER, rot[r]]],
+            ["nl", "xtol", [EAGER, rot[(r + 1) % 3]]],
+            ["nl", "absdelta", [EAGER, rot[r]]]]
+
+
 def runs_spec(ctx):
     if ctx.quick:
         return {"seed": 7 + ctx.seed, "classic": True, "jax_modes": [["nonlinear_resample", 3]],
-                "jax_configs": QUICK_CONFIGS}
+                "jax_configs": QUICK_CONFIGS, "strategy": strategy_entries(ctx)}
     return {"seed": 7 + ctx.seed, "classic": True,
             "jax_modes": [["nonlinear_resample", 3], ["linear_resample", 2], ["nonlinear_sample", 2]],
-            "jax_configs": ALL_CONFIGS}
+            "jax_configs": ALL_CONFIGS, "strategy": strategy_entries(ctx)}
 
 
 def start_runs(ctx, spec, tag):
@@ -601,7 +626,7 @@ def start_runs(ctx, spec, tag):
         if os.path.exists(out):
             os.remove(out)
         log = open(os.path.join(d, "runs_%s_%d.log" % (tag, i)), "w")
-        p = subprocess.Popen(["/venv/bin/python", "-m", "harness.props.c21_runs", sp, out],
+        p = subprocess.Popen(["/venv/bin/python", "-m", "harness.props.c21_runs", sp, out, str(i)],
                              cwd=C.HOME, stdout=log, stderr=subprocess.STDOUT)
         procs.append((p, out, log))
     return procs
@@ -627,7 +652,21 @@ def compare_runs(outs):
     from .c21_runs import unhx
     fails = []
     a, b = outs
+    for k, res in sorted(a.get("strategy", {}).items()):
+        names = list(res)
+        ref = unhx(res[names[0]])
+        scale = float(np.max(np.abs(ref))) if ref.size and np.all(np.isfinite(ref)) else float("nan")
+        for nm in names[1:]:
+            x = unhx(res[nm])
+            rel = float(np.max(np.abs(x - ref))) / scale if x.shape == ref.shape and np.all(np.isfinite(x)) else float("inf")
+            if not rel <= STRAT_TOL[k]:
+                fails.append(({"part": "sampling_strategy", "form": k},
+                              "samples for solver options `%s` with %s differ from %s by %.2e (relative; allowed %.0e)"
+                              % (k, nm, names[0], rel, STRAT_TOL[k]), {"form": k, "variant": nm, "reference": names[0]}))
+                break
     for k in sorted(a):
+        if k == "strategy":
+            continue                      # computed by the first process only
         if json.dumps(a[k], sort_keys=True) != json.dumps(b.get(k), sort_keys=True):
             fails.append(({"part": "fresh_process", "run": k.split(":")[0]},
                           "run %s is not bit-identical in two fresh processes" % k, {"run": k}))
@@ -1034,7 +1073,9 @@ class C21(C.Check):
             inp["spec"] = runs_spec(ctx)
             res.add_failing(sig, what, inp)
         res.coverage["impl_property_evaluations"] = n + nv + sum(
-            len(v) if k.startswith("jax:") else 1 for k, v in outs[0].items())
+            len(v) if k.startswith("jax:") else (sum(len(x) for x in v.values()) if k == "strategy" else 1)
+            for k, v in outs[0].items())
+        res.coverage["sampling_strategy_pairs"] = {k: list(v) for k, v in outs[0].get("strategy", {}).items()}
         cleanup_scratch(self.prop)
         res.coverage["differential_runs"] = {"runs": sorted(outs[0]), "jax_configs": sorted(
             {c for k, v in outs[0].items() if k.startswith("jax:") for c in v}),
